@@ -5,28 +5,7 @@ From Verif Require Import Base.Bytes Model.Chain Model.GoText Model.Eval
 From Coq Require Import Lia.
 Local Open Scope nat_scope.
 
-(* an object / array layer with at least one member has depth >= 2, whatever the members (an empty chain exports
-   as an unknown scalar) *)
-Fixpoint ldepth (l : layer) : nat :=
-  match l with
-  | LScalar _ _ _ _ => 1
-  | LArr _ _ _ elems =>
-      S ((fix go (es : list (list layer)) : nat :=
-            match es with
-            | [] => 0
-            | c :: r => Nat.max (Nat.max 1 ((fix g2 (c : list layer) : nat :=
-                                    match c with [] => 0 | l :: r' => Nat.max (ldepth l) (g2 r') end) c)) (go r)
-            end) elems)
-  | LObj _ _ _ props =>
-      S ((fix go (ps : list (string * list layer)) : nat :=
-            match ps with
-            | [] => 0
-            | kc :: r => Nat.max (Nat.max 1 ((fix g2 (c : list layer) : nat :=
-                                    match c with [] => 0 | l :: r' => Nat.max (ldepth l) (g2 r') end) (snd kc))) (go r)
-            end) props)
-  end.
-
-Fixpoint cdepth (c : chain) : nat := match c with [] => 0 | l :: r => Nat.max (ldepth l) (cdepth r) end.
+(* [ldepth] / [cdepth] are defined in Model/Chain.v (the evaluator computes the fuel of its inner exports from them) *)
 Fixpoint csdepth (cs : list chain) : nat := match cs with [] => 0 | c :: r => Nat.max (Nat.max 1 (cdepth c)) (csdepth r) end.
 Fixpoint pdepth (ps : list (string * chain)) : nat :=
   match ps with [] => 0 | kc :: r => Nat.max (Nat.max 1 (cdepth (snd kc))) (pdepth r) end.
@@ -91,6 +70,60 @@ Proof.
     destruct (export f (property k (LObj s u sc p :: r))) eqn:E2; [discriminate|].
     exfalso. revert E2. apply IH. lia.
 Qed.
+
+(* ---------------- [export_t]: the export INSIDE the evaluator never runs out of fuel ---------------- *)
+Lemma export_depth_agree f f' c : cdepth c < f -> cdepth c < f' -> export f c = export f' c.
+Proof.
+  intros H H'. destruct (export f c) as [v|] eqn:E; [|exfalso; revert E; apply export_total_depth, H].
+  destruct (export f' c) as [v'|] eqn:E'; [|exfalso; revert E'; apply export_total_depth, H'].
+  destruct (Nat.le_ge_cases f f') as [L|L].
+  - rewrite (export_fuel_mono f f' c v E L) in E'. exact E'.
+  - rewrite (export_fuel_mono f' f c v' E' L) in E. symmetry. exact E.
+Qed.
+
+(* ... it is [export] at ANY fuel above the depth *)
+Theorem export_t_at c f : cdepth c < f -> export_t c = export f c.
+Proof.
+  intro H. unfold export_t. destruct (export big_fuel c) as [v|] eqn:E.
+  - destruct (export f c) as [v'|] eqn:E'; [|exfalso; revert E'; apply export_total_depth, H].
+    destruct (Nat.le_ge_cases big_fuel f) as [L|L].
+    + rewrite (export_fuel_mono big_fuel f c v E L) in E'. exact E'.
+    + rewrite (export_fuel_mono f big_fuel c v' E' L) in E. symmetry. exact E.
+  - apply export_depth_agree; [lia|exact H].
+Qed.
+
+Theorem export_t_eq c : export_t c = export (S (cdepth c)) c.
+Proof. apply export_t_at. lia. Qed.
+
+Theorem export_t_total c : exists v, export_t c = Some v.
+Proof.
+  rewrite export_t_eq. destruct (export (S (cdepth c)) c) as [v|] eqn:E; [eauto|].
+  exfalso. revert E. apply export_total_depth. lia.
+Qed.
+
+Lemma export_t_not_none c : export_t c <> None.
+Proof. destruct (export_t_total c) as [v ->]. discriminate. Qed.
+
+(* where the constant fuel is enough the two agree (the common case; [big_fuel] is never unfolded) *)
+Lemma export_t_big c v : export big_fuel c = Some v -> export_t c = Some v.
+Proof. unfold export_t. intros ->. reflexivity. Qed.
+
+Lemma export_t_sound c v : export_t c = Some v -> export (S (cdepth c)) c = Some v.
+Proof. rewrite export_t_eq. auto. Qed.
+
+Lemma export_t_fuel c v f : export_t c = Some v -> cdepth c < f -> export f c = Some v.
+Proof. intros H Hf. rewrite <- (export_t_at c f Hf). exact H. Qed.
+
+(* two values (of two runs, say) read at ONE fuel *)
+Definition fuel2 (c1 c2 : chain) : nat := S (Nat.max (cdepth c1) (cdepth c2)).
+Lemma export_t_l c1 c2 : export_t c1 = export (fuel2 c1 c2) c1.
+Proof. apply export_t_at. unfold fuel2. lia. Qed.
+Lemma export_t_r c1 c2 : export_t c2 = export (fuel2 c1 c2) c2.
+Proof. apply export_t_at. unfold fuel2. lia. Qed.
+
+(* containsUnknowns / containsSecrets are exact: the [None => true] default of their definition is dead code *)
+Theorem contains_unknowns_t c : exists v, export_t c = Some v /\ contains_unknowns c = x_has_unknown v /\ contains_secrets c = x_has_secret v.
+Proof. destruct (export_t_total c) as [v Hv]. exists v. unfold contains_unknowns, contains_secrets. rewrite Hv. auto. Qed.
 
 (* ---------------- depth of the chain operations ---------------- *)
 Lemma ldepth_set_sec l : ldepth (set_sec l) = ldepth l.
